@@ -79,6 +79,40 @@ def factor_out(x, y):
     return som(total)
 
 
+def as_int_expr(x):
+    """If the Real term x is built from integer terms by +, -, * only, return the same expression over Int."""
+    if x.sort() == z3.IntSort():
+        return x
+    if z3.is_app_of(x, z3.Z3_OP_TO_REAL):
+        return x.arg(0)
+    if z3.is_rational_value(x):
+        if x.denominator_as_long() == 1:
+            return z3.IntVal(x.numerator_as_long())
+        return None
+    if z3.is_add(x) or z3.is_mul(x) or z3.is_sub(x):
+        ch = [as_int_expr(c) for c in x.children()]
+        if any(c is None for c in ch):
+            return None
+        if z3.is_add(x):
+            return z3.Sum(ch)
+        if z3.is_sub(x):
+            r = ch[0]
+            for c in ch[1:]:
+                r = r - c
+            return r
+        r = ch[0]
+        for c in ch[1:]:
+            r = r * c
+        return r
+    if z3.is_app_of(x, z3.Z3_OP_UMINUS):
+        c = as_int_expr(x.arg(0))
+        return None if c is None else -c
+    if z3.is_app_of(x, z3.Z3_OP_ITE):
+        a, b = as_int_expr(x.arg(1)), as_int_expr(x.arg(2))
+        return None if a is None or b is None else z3.If(x.arg(0), a, b)
+    return None
+
+
 def simp(t):
     try:
         return z3.simplify(t)
@@ -409,21 +443,19 @@ def check_valid(premises, goal, timeout_ms=10000, want_model=True, use_cvc5=True
     reason = ""
     last_solver = None
     budgets = [min(1500, timeout_ms), timeout_ms] if timeout_ms > 3000 else [timeout_ms]
-    for budget in budgets:
+    for rnd, budget in enumerate(budgets):
+        ab = budget if rnd == 0 else min(budget, 8000)  # abstraction stages rarely need more than a few seconds
         if hints:
             try:
-                if _stage_ground(premises, sk_goal, budget) == z3.unsat:
+                if _stage_ground(premises, sk_goal, ab) == z3.unsat:
                     return Result("proved", "z3-%s/ground-instances" % z3.get_version_string(), time.time() - t0)
             except z3.Z3Exception:
                 pass
-            for ground in (True, False):
-                try:
-                    r = _stage_abstract(premises, sk_goal, budget, ground)
-                    if r == z3.unsat:
-                        return Result("proved", "z3-%s/abstract-mul%s" % (z3.get_version_string(), "+g" if ground else ""),
-                                      time.time() - t0)
-                except z3.Z3Exception:
-                    pass
+            try:
+                if _stage_abstract(premises, sk_goal, ab, True) == z3.unsat:
+                    return Result("proved", "z3-%s/abstract-mul+g" % z3.get_version_string(), time.time() - t0)
+            except z3.Z3Exception:
+                pass
         s = _tactic_solver(budget)
         for p in premises:
             s.add(p)
@@ -440,7 +472,12 @@ def check_valid(premises, goal, timeout_ms=10000, want_model=True, use_cvc5=True
                           model=s.model() if want_model else None)
         reason = s.reason_unknown()
         if hints:
-            s2 = _tactic_solver(budget)
+            try:
+                if _stage_abstract(premises, sk_goal, ab, False) == z3.unsat:
+                    return Result("proved", "z3-%s/abstract-mul" % z3.get_version_string(), time.time() - t0)
+            except z3.Z3Exception:
+                pass
+            s2 = _tactic_solver(ab)
             for p in premises:
                 s2.add(p)
             for h in nl_hints(list(premises) + [sk_goal]):
